@@ -8,7 +8,7 @@ TARGETS = ["Base/Num.vo", "C14/ER.vo", "C14/Model.vo", "C14/Spec.vo", "C14/Proof
            "C14/ProofsCont.vo", "C14/ProofsDisc.vo", "C14/ProofsNorm.vo", "C14/ProofsCdf.vo", "C14/ProofsCdf2.vo", "C14/ProofsNorm2.vo",
            "C14/ProofsRegress.vo", "C14/VModel.vo", "C14/ProofsVec.vo",
            "C14/MixModel.vo", "C14/ProofsMix.vo", "C14/SkewModel.vo", "C14/ProofsSkew.vo", "C14/IWModel.vo", "C14/ProofsIW.vo",
-           "C14/Corr2.vo", "C14/ProofsCdf3.vo", "C14/Props.vo"]
+           "C14/Corr2.vo", "C14/ProofsCdf3.vo", "C14/MixParam.vo", "C14/ProofsMixParam.vo", "C14/ProofsMixParam2.vo", "C14/CorrP.vo", "C14/Props.vo"]
 PROPS = ["C14/Props.v"]
 PARTIAL = ("Theorems are over exact real arithmetic extended by +Inf/-Inf/NaN (coq/C14/ER.v); rounding, overflow and "
            "signed zeros of binary64 are not modelled; the step to binary64 is bounded per sampled case by the "
@@ -22,8 +22,14 @@ PARTIAL = ("Theorems are over exact real arithmetic extended by +Inf/-Inf/NaN (c
            "the inverse Wishart and the normal-inverse-Wishart (|S|, X^-1, |X|, inverse / determinant of sigma/kappa and "
            "special.Mlgamma are logged; tie for dimensions 1..3, theorems for every dimension; a matrix that is not positive "
            "definite is represented by a logged determinant <= 0). Mixtures: generic.Mixture with the components' own "
-           "LogPdf values as logged data (scalar wrapper and vector wrapper over ScalarIid components); the matrix "
-           "mixture wrapper, mixture SetParameters / ImportConfig and the HMM types are not modelled. Derivative slots are checked only by the hunt (central differences). "
+           "LogPdf values as logged data (scalar wrapper and vector wrapper over ScalarIid components). Parameter layout "
+           "(MixParam.v): Get/SetParameters of the scalar / vector / matrix Mixture, ScalarId / VectorId, ScalarIid / VectorIid "
+           "over an abstract component type and over finite nestings of 13 leaf families whose Get/SetParameters copy the "
+           "entries (leaf state = its parameter list; that the cached constants follow is SModel.v's theorem and, for the "
+           "composite, the hunt's fresh-components reference); a parameter vector has capacity = length (Go's v[i:j] may "
+           "reach into spare capacity); vector normal / t / skew normal, the transforms and the discrete log-parametrised "
+           "families (binomial, categorical, beta's flag) as mixture components, mixture ImportConfig / ExportConfig (hunt "
+           "only, scalar mixtures) and the HMM types are not modelled. Derivative slots are checked only by the hunt (central differences). "
            "Cache coherence over mutator histories (SModel.v) is proved for the 18 scalar families; the state model is "
            "functional (one object): storage shared between an object and its clone / its caller's vectors is outside "
            "it and covered by the hunt only (copies set aside at a Clone, scribbling on argument / returned vectors); "
@@ -51,7 +57,7 @@ def match_known(fail, findings):
         if fail["fam"] not in fams or fail["kind"] not in m.get("kinds", []):
             continue
         env = {"ps": fail["p"].get("ps") or [], "zs": fail["p"].get("zs") or [], "x": fail["x"], "v": fail.get("v") or {}, "w": fail.get("w") or {},
-               "ops": [o.get("k") for o in (fail.get("ops") or [])], "exp": fail.get("expected") or "",
+               "ops": [o.get("k") for o in (fail.get("ops") or [])], "exp": fail.get("expected") or "", "obs": fail.get("observed") or "",
                "fam": fail["fam"], "abs": abs, "sum": sum, "True": True, "False": False}
         try:
             if eval(m.get("when", "False"), {"__builtins__": {}}, env):
